@@ -5,12 +5,12 @@
 P="$1"; X="$2"; shift 2
 WT=/tmp/seed/$P; OUT=$WT/verify_$X; mkdir -p "$OUT"
 cd "$WT" || exit 2
-git checkout -q -- . ; git checkout -q --detach "$(git -C /repo rev-parse HEAD)" || exit 2
+git reset -q --hard; git checkout -q --detach "$(git -C /repo rev-parse HEAD)" || exit 2
 export PYTHONPATH=$WT
 run_demo() { setsid -w timeout -s KILL 300 /venv/bin/python -u seed_out/demo_$X.py > "$1" 2>&1 < /dev/null; echo $?; }
 c1=$(run_demo $OUT/demo_clean.txt)
 if ! git apply --check seed_out/$X.diff 2>/dev/null; then
-    if ! git apply --3way seed_out/$X.diff > $OUT/apply.txt 2>&1; then echo "SEED $P/$X: DIFF DOES NOT APPLY on current HEAD"; git checkout -q -- .; exit 3; fi
+    if ! git apply --3way seed_out/$X.diff > $OUT/apply.txt 2>&1; then echo "SEED $P/$X: DIFF DOES NOT APPLY on current HEAD"; git reset -q --hard; exit 3; fi
 else git apply seed_out/$X.diff; fi
 git diff > $OUT/patch_on_head.diff
 c2=$(run_demo $OUT/demo_mutated.txt)
@@ -20,5 +20,5 @@ if [ $# -gt 0 ]; then
     tr=$(grep -E "passed|failed" $OUT/tests.txt | tail -1)
     fl=$(grep -E "^FAILED" $OUT/tests.txt | grep -vE "test_sigkill_shutdown_leaks_workers|test_cpu_count_cgroup_limit|test_no_failure_on_large_data_send" | tr '\n' ' ')
 fi
-git checkout -q -- . ; git reset -q
+git reset -q --hard
 echo "SEED $P/$X: demo clean rc=$c1, mutated rc=$c2; tests: $tr; unexpected failures: ${fl:-none}"
